@@ -21,11 +21,11 @@ EXPLANATION = (
     "the constructor; (D4) _check_normalization: numeric branch sums |a|^2 and raises unless isclose(.., 1), "
     "symbolic branch sums the numeric entries (probe accepts complex numbers) and raises when the sum exceeds 1; "
     "probabilities are |amplitudes|^2; (D5) save/load key agreement and loader interface. "
-    "(D2o) __setitem__ never replaces the amplitude container between the write and the rollback; (D2s) the saved old value is a copy (a slice of a numpy vector is a view); (D4c) the numeric-entry classifier is complete for symbol-free expressions (no is_Number-style atomic predicates); (D5o) no one-sided test on an imaginary part on the save path."
+    "(D2o) __setitem__ never replaces the amplitude container between the write and the rollback; (D2s) the saved old value is a copy (a slice of a numpy vector is a view); (D4c) the numeric-entry classifier is complete for symbol-free expressions (no is_Number-style atomic predicates); (D5o) no one-sided test on an imaginary part on the save path; (D6) the flip ordering is arange(2**n) viewed as n axes of extent 2 with every axis reversed and flattened again (exactly the bit-reversal permutation, an involution), and flip_amplitudes indexes the amplitudes by the ordering of their own length."
 )
 RULE_TEXT = "instances = CFG nodes of the constructor/__setitem__/bind, stores to the amplitude field anywhere in the package, branches of the normalisation check, record keys; distinct by (rule, construct)"
 ASSUMPTIONS = [
-    "declined: Dicke weights, bit-reversal permutation, probabilities summing to 1 numerically (numeric claims)",
+    "declined: Dicke weights, probabilities summing to 1 numerically (numeric claims)",
     "informational, not claimed: accessors hand out the internal array by reference and np.asarray may alias the caller's array; rollback of a *slice* assignment saves a numpy view",
 ]
 
@@ -289,7 +289,96 @@ def check_normalisation(ctx):
     ctx.check(ok_gp, R4, gp.key, "probabilities = |amplitudes|^2", f"get_probabilities returns {short(r[0]) if r else None}, not |amplitudes|^2", gp)
 
 
+R6 = "C12-D6 bit-reversal"
+
+
+def _chain(e: ast.AST):
+    """innermost-first list of (attribute, call-or-None) of a method chain, and its base expression"""
+    steps = []
+    while True:
+        if isinstance(e, ast.Call) and isinstance(e.func, ast.Attribute) and not (dotted(e.func) or "").startswith(("np.", "numpy.")):
+            steps.append((e.func.attr, e))
+            e = e.func.value
+        elif isinstance(e, ast.Attribute) and e.attr in ("T",):
+            steps.append((e.attr, None))
+            e = e.value
+        else:
+            break
+    return list(reversed(steps)), e
+
+
+def check_bit_reversal(ctx):
+    """flip = index by the permutation obtained from arange(2**n) viewed as an n-axis tensor of extent 2 with *all* axes reversed:
+    axis k of that tensor is bit k of the index, so reversing every axis is exactly the bit-reversal permutation (and an involution).
+    Exchanging only some axes (swapaxes, moveaxis, a partial transpose) is a different permutation for n >= 3."""
+    repo = ctx.repo
+    go = repo.func(f"{WF}:_get_ordering")
+    fa = repo.func(f"{WF}:flip_amplitudes")
+    ctx.analysed(go, fa)
+    d = Defs(go.node)
+    rets = returned_exprs(go.node)
+    e = rets[0] if len(rets) == 1 else None
+    if isinstance(e, ast.Name):
+        e = d.single_def(e.id)
+    if not isinstance(e, ast.AST):
+        ctx.undecided(R6, go.key, "cannot find the single returned permutation", go)
+        return
+    steps, base = _chain(e)
+    nb = None
+    for nm, vs in d.defs.items():
+        for v in vs:
+            if isinstance(v, ast.AST) and norm(v) in (f"{positional_params(go.node)[0]}.bit_length() - 1",):
+                nb = nm
+    where = f"{go.module.relpath}:{e.lineno}"
+    names = [a for a, _ in steps]
+    ok_base = isinstance(base, ast.Call) and (dotted(base.func) or "").split(".")[-1] == "arange" and len(base.args) == 1 and nb is not None and norm(base.args[0]) in (f"2 ** {nb}", positional_params(go.node)[0])
+    ok_split = len(steps) >= 1 and steps[0][0] == "reshape" and nb is not None and norm(steps[0][1].args[0]) in (f"{nb} * [2]", f"[2] * {nb}", f"({nb} * [2])", f"(2,) * {nb}", f"{nb} * (2,)") if steps and steps[0][1] is not None and steps[0][1].args else False
+    ok_join = len(steps) >= 1 and ((steps[-1][0] == "reshape" and steps[-1][1].args and nb is not None and norm(steps[-1][1].args[0]) in (f"2 ** {nb}", "-1", positional_params(go.node)[0])) or (steps[-1][0] in ("ravel", "flatten") and not steps[-1][1].args))
+    ctx.check(ok_base and ok_split and ok_join, R6, go.key + ":tensor-view", "arange(2**n) viewed as n axes of extent 2 and flattened again (C order)", f"the permutation {short(e, 120)} is not arange(2**n).reshape(n*[2])...reshape(2**n) with n = bit_length - 1", where)
+    mids = steps[1:-1]
+    if len(mids) != 1:
+        ctx.check(False, R6, go.key + ":all-axes-reversed", "", f"expected exactly one axis permutation between the two reshapes, found {[a for a, _ in mids]}: " + ("without one the ordering is the identity, not the bit reversal" if not mids else "a composition of axis moves is not analysed as a full reversal"), where) if not mids else ctx.undecided(R6, go.key + ":all-axes-reversed", f"axis permutation is a composition {[a for a, _ in mids]}", where)
+    else:
+        a, c = mids[0]
+        full = False
+        if a == "T":
+            full = True
+        elif a == "transpose" and c is not None:
+            if not c.args and not c.keywords:
+                full = True
+            elif len(c.args) == 1 and nb is not None:
+                x = c.args[0].value if isinstance(c.args[0], ast.Starred) else c.args[0]
+                full = norm(x) in (f"reversed(range({nb}))", f"range({nb})[::-1]", f"list(reversed(range({nb})))", f"range({nb} - 1, -1, -1)", f"np.arange({nb})[::-1]", f"tuple(reversed(range({nb})))")
+        if full:
+            ctx.ok(R6, go.key + ":all-axes-reversed", "every axis of the tensor view is reversed: index bits are reversed", where)
+        elif a in ("swapaxes", "moveaxis", "transpose", "rollaxis"):
+            ctx.violation(R6, go.key + ":all-axes-reversed", f"the axes are permuted by `.{a}({', '.join(short(x) for x in (c.args if c is not None else []))})`, which does not reverse all of them: with three or more qubits only some index bits change place, so flipping is not the bit-reversal permutation", where)
+        else:
+            ctx.undecided(R6, go.key + ":all-axes-reversed", f"axis permutation `.{a}` is not recognised", where)
+    # flip_amplitudes indexes the given amplitudes by the ordering of their own length
+    fd = Defs(fa.node)
+    fr = returned_exprs(fa.node)
+    amp = positional_params(fa.node)[0]
+    ok = False
+    if len(fr) == 1 and isinstance(fr[0], ast.Subscript):
+        idx = fr[0].slice
+        if isinstance(idx, ast.Name):
+            idx = fd.single_def(idx.id)
+        arg = idx.args[0] if isinstance(idx, ast.Call) and dotted(idx.func) == "_get_ordering" and len(idx.args) == 1 else None
+        if isinstance(arg, ast.Name):
+            arg = fd.single_def(arg.id)
+        ok = isinstance(arg, ast.AST) and norm(arg) == f"len({amp})" and norm(fr[0].value) in (f"np.asarray({amp})", f"np.array({amp})", amp)
+    ctx.check(ok, R6, fa.key, "flip_amplitudes = amplitudes[_get_ordering(len(amplitudes))]", f"flip_amplitudes returns {short(fr[0]) if fr else None}: not the given amplitudes indexed by the ordering for their own length", fa)
+    fw = repo.func(f"{WF}:flip_wavefunction")
+    ctx.analysed(fw)
+    r = returned_exprs(fw.node)
+    ok = len(r) == 1 and norm(r[0]) == f"Wavefunction(flip_amplitudes({positional_params(fw.node)[0]}.amplitudes))"
+    ctx.check(ok, R6, fw.key, "flip_wavefunction wraps flip_amplitudes of the wavefunction's amplitudes", f"flip_wavefunction returns {short(r[0]) if r else None}", fw)
+
+
 def run(ctx):
+    check_bit_reversal(ctx)
+    ctx.floor("C12-D6", 4)
     check_constructor(ctx)
     check_setitem(ctx)
     check_who_writes(ctx)
